@@ -1,7 +1,7 @@
 (* C13 - distance, magnitude difference, circle inversion: structural part.  Pinned theorems only. *)
 From Coq Require Import ZArith List Bool Reals Lra.
 From Flocq Require Import Core BinarySingleNaN.
-Require Import GV.FloatBase GV.FloatLemmas GV.AngleM GV.AngleProofs GV.GeonumM GV.GeonumProofs GV.TraitsM GV.NewProofs GV.CtorProofs GV.PiBounds GV.TrigProofs GV.DotValue GV.DistValue GV.DirProofs GV.SymProofs GV.ClosureProofs GV.SumUpper GV.SumDir GV.MetricProofs.
+Require Import GV.FloatBase GV.FloatLemmas GV.AngleM GV.AngleProofs GV.GeonumM GV.GeonumProofs GV.TraitsM GV.NewProofs GV.CtorProofs GV.PiBounds GV.TrigProofs GV.DotValue GV.DistValue GV.DirProofs GV.SymProofs GV.ClosureProofs GV.SumUpper GV.SumDir GV.MetricProofs GV.TraitsProofs GV.BoundProofs GV.ProdProofs GV.FieldProofs GV.InvertProofs.
 Open Scope R_scope.
 
 (* for EVERY libm and every input: distance_to is at angle exactly 0 and its magnitude is never NaN or negative *)
@@ -108,3 +108,35 @@ Theorem C13_dist_tol_def : forall (u : R) a b, dist_tol u a b =
     * (1 + / 9007199254740992) + bpow radix2 (-1075).
 Proof. reflexivity. Qed.
 Print Assumptions C13_dist_tol_def.
+
+(* circle inversion: p' = c + v where v carries the computed offset's angle bit for bit (SAME RAY from c),
+   |v| |p - c| = r^2 within 3*2^-52 r^2, and the Cartesian point of p' is that of c plus that of v within the
+   tolerance T of C06_cartesian (general path of the final sum); invert_circle is None (the documented panic)
+   exactly when the computed offset has zero magnitude (C13_invert_panic) *)
+Theorem C13_inversion_value : forall (L : libm) (u u2 : R) g c r q, cos_acc L u -> sin_acc L u -> atan2_acc L u2 -> u <= / 1000 ->
+  invert_circle L g c r = Some q ->
+  let off := gsub_vv L g c in
+  let io := {| mag := fdiv (fmul r r) (mag off); ang := ang off |} in
+  canonp (rem (ang c)) -> canonp (rem (ang off)) ->
+  fin (mag io) -> fin (mag off) ->
+  bpow radix2 (-500) <= R_ r * R_ r -> bpow radix2 (-500) <= R_ (mag off) ->
+  bpow radix2 (-500) <= R_ r * R_ r / R_ (mag off) ->
+  aeqb (ang c) (ang io) = false ->
+  aeqb (add_vv (ang c) (new one one)) (ang io) || aeqb (add_vv (ang io) (new one one)) (ang c) = false ->
+  (0 <= blade (ang c) + blade (ang io) < 2 ^ 40)%Z ->
+  fin (gadd_rad L c io) ->
+  fin (fadd (fmul (mag c) (sinF L (grade_angle (ang c)))) (fmul (mag io) (sinF L (grade_angle (ang io))))) ->
+  fin (fadd (fmul (mag c) (cosF L (grade_angle (ang c)))) (fmul (mag io) (cosF L (grade_angle (ang io))))) ->
+  let Vx := R_ (mag c) * cos (dir (ang c)) + R_ (mag io) * cos (dir (ang off)) in
+  let Vy := R_ (mag c) * sin (dir (ang c)) + R_ (mag io) * sin (dir (ang off)) in
+  let M := Rabs (R_ (mag c)) + Rabs (R_ (mag io)) in
+  let E := M * (u + 3 / 1000000000000000) + 4 * bpow radix2 (-1075) in
+  let S := R_ (mag c) * R_ (mag c) + R_ (mag io) * R_ (mag io) in
+  let Bnd := S * (u + 1 / 100000000000000) + 10 * bpow radix2 (-1075) in
+  let tolN := R_ eps10 + 3 / 100000000000000 + IZR (blade (ang c) + blade (ang io)) * (4 / 1000000000000000) in
+  let T := sqrt Bnd * (1 + / 9007199254740992) + / 9007199254740992 * sqrt (Vx * Vx + Vy * Vy) + bpow radix2 (-1075)
+           + 3 * E + (M + 2 * E) * (u2 + tolN) in
+  Rabs (R_ (mag io) * R_ (mag off) - R_ r * R_ r) <= 3 * / 4503599627370496 * (R_ r * R_ r) /\
+  Rabs (R_ (mag q) * cos (dirR (ang q)) - Vx) <= T /\ Rabs (R_ (mag q) * sin (dirR (ang q)) - Vy) <= T.
+Proof. exact invert_circle_value. Qed.
+Print Assumptions C13_inversion_value.
